@@ -47,11 +47,12 @@ func (v *StructSchema) Merge(other *StructSchema, others ...*StructSchema) *Stru
 }
 
 // cloneShallow creates a shallow copy of the schema.
-// The new schema shares references to the transforms, tests and inner schema.
+// The new schema shares references to the individual transforms, tests and inner schemas
+// but has its own lists of them, so adding a test or transform to one schema never affects the other.
 func (v *StructSchema) cloneShallow() *StructSchema {
 	new := &StructSchema{
-		postTransforms: v.postTransforms,
-		tests:          v.tests,
+		postTransforms: append([]p.PostTransform(nil), v.postTransforms...),
+		tests:          append([]p.Test(nil), v.tests...),
 		required:       v.required,
 		schema:         v.schema,
 	}
